@@ -8,15 +8,7 @@
 // sound for the functions placed on top of it because none of them reads a
 // component after writing it (checked by the driver: `unit.state_rw_scan`).
 //
-// `ReProgram` here lists only the fields operator code reads; the struct is
-// not executable code, and the fields keep their real names and types.
-pub struct ReProgram {
-    pub flags: ReFlags,
-    pub optimization_flags: u32,
-    pub max_parens: Option<usize>,
-    pub backtracking_limit: Option<usize>,
-}
-
+// (`ReProgram`: prelude/program_min.rs)
 pub struct ReMatcher<'a> {
     pub program: &'a ReProgram,
     pub search: Vec<char>,
